@@ -78,6 +78,10 @@ def oracle_run(cfg):
             if got.shape != want.shape:
                 return dict(detail='shape %s vs reference %s' % (got.shape, want.shape))
             ok, msg = tol_close(got, want, sc)
+            if ok and cfg['seed'] % 3 == 0:
+                mk = lambda dt: (lambda a, m=DTCWTInverse(biort=cfg['biort'], qshift=cfg['qshift']).to(dt): m((a[0], list(a[1:]))))
+                msg = pow2_homog(mk, [torch.tensor(YL)] + [torch.tensor(h) for h in YH])
+                ok = msg is None
             return None if ok else dict(detail=msg)
         ab = cfg['absent']          # ab[0] = lowpass, ab[1+j] = level j
         ph = {'none': lambda: None, 'zerodim': lambda: torch.zeros([], dtype=torch.float64), 'empty': lambda: torch.tensor([], dtype=torch.float64)}[cfg['placeholder']]
